@@ -103,11 +103,13 @@ def replay(case):
                         sol = ode.trapezoidal_rule(A, x0, g_, steps, repeats=1, tt_solver=solver, threshold=0,
                                                    max_rank=np.inf, micro_solver=micro, normalize=normalize, progress=False)
                     else:
-                        if normalize == 1:
+                        if normalize == 1 and not markov:
                             continue
+                        if normalize == 1 and with_prev and (np.min(vec(prev).real) < 0 or np.sum(vec(prev).real) < 0.5):
+                            continue      # the Manhattan norm (sum of entries) is meant for non-negative states
                         # with normalisation every state the scheme produces has unit norm, the start-up state included; a previous
                         # value handed over by the caller is given with unit norm (in a representation that is not orthonormal)
-                        prev_ = prev if not normalize else (1.0 / float(np.linalg.norm(vec(prev)))) * prev
+                        prev_ = prev if not normalize else (1.0 / _pnorm(vec(prev), normalize)) * prev
                         # an odd order is documented to be rounded up to the next even one
                         sol = ode.hod(A, x0, steps[0], len(steps), order=2 * cfg['m'] - (1 if len(steps) == 1 else 0),
                                       previous_value=prev_ if with_prev else None,
@@ -155,6 +157,11 @@ def replay(case):
     return out
 
 
+def _pnorm(v, p):
+    """the library's norms: p = 1 is the sum of the entries (Manhattan norm of a non-negative vector), p = 2 Euclidean"""
+    return float(np.sum(v).real) if p == 1 else float(np.linalg.norm(v))
+
+
 def check_trajectory(sol, x0, Ad, steps, sch, P, isl, normalize, with_prev, prev, dims):
     if not isinstance(sol, list) or len(sol) != len(steps) + 1:
         return [('length', 'trajectory has %r entries for %d steps' % (len(sol) if isinstance(sol, list) else sol, len(steps)))]
@@ -180,12 +187,12 @@ def check_trajectory(sol, x0, Ad, steps, sch, P, isl, normalize, with_prev, prev
                     R = poly_mat(isl['start']['R'], Z)
                     xm1 = xs[0] - Q @ (R @ xs[0])
                 if normalize:
-                    xm1 = xm1 / np.linalg.norm(xm1)
+                    xm1 = xm1 / _pnorm(xm1, normalize)
             else:
                 xm1 = xs[k - 1]
             want = xm1 + inc @ xs[k]
             if normalize:
-                want = want / np.linalg.norm(want)
+                want = want / _pnorm(want, normalize)
             scale = max(np.linalg.norm(xm1), np.linalg.norm(xs[k]))
             if np.linalg.norm(xs[k + 1] - want) > 1e-9 * scale:
                 return [('recurrence', 'step %d violates x_{k+1} = x_{k-1} + 2 sum h^(2j-1)/(2j-1)! A^(2j-1) x_k%s: defect %.3e' % (
